@@ -76,6 +76,17 @@ SHAPES = [
     S(54, 'v', 'REQ',    'Q1 RT'),
     S(55, 'v', 'REQ',    'RT TH'),
     S(56, 'v', 'REQ',    'Q2 S1 RT'),
+    # ---- the variadic (C++11 style) macro forms NAMED_xxx_CALL_V(obj, func, modifiers...): own macro bodies
+    S(60, 'f', 'REQ_V',    'W1 RT R'),
+    S(61, 'f', 'ALLOW_V',  'W1 R'),
+    S(62, 'v', 'FORBID_V', 'W1'),
+    S(63, 'v', 'FORBID_V', ''),
+    S(64, 'v', 'ALLOW_V',  'S1'),
+    S(65, 'v', 'ALLOW_V',  ''),
+    S(66, 'v', 'REQ_V',    'RT'),
+    S(67, 'v', 'REQ_V',    ''),
+    S(68, 'f', 'FORBID_V', ''),
+    S(69, 'f', 'REQ_V',    'Q1 RT R'),
 ]
 
 BY_ID = {s['id']: s for s in SHAPES}
@@ -108,7 +119,8 @@ def derive(sh):
         retk = 3            # throws int
     else:
         retk = 0            # void / nothing
-    lo, hi = {'REQ': (1, 1), 'ALLOW': (0, INF), 'FORBID': (0, 0)}[sh['macro']]
+    fam = sh['macro'].replace('_V', '')
+    lo, hi = {'REQ': (1, 1), 'ALLOW': (0, INF), 'FORBID': (0, 0)}[fam]
     rt = 'RT' in cl
     for c in cl:
         b = static_bounds(c)
@@ -119,11 +131,11 @@ def derive(sh):
     bidx = [i for i, c in enumerate(cl) if c == 'RT' or static_bounds(c)]
     qidx = [i for i, c in enumerate(cl) if c in ('Q1', 'Q2')]
     bounds_first = bool(bidx and qidx and bidx[0] < qidx[0])
-    if sh['macro'] != 'REQ':
+    if fam != 'REQ':
         bounds_first = True
     return dict(fn=FN[sh['fn']], npar=NPAR[sh['fn']], nw=nw, ns=ns, nq=nq,
                 retk=retk, lo=lo, hi=hi, rt=rt, pm=sh['pm'],
-                bounds_first=bounds_first, macro=sh['macro'])
+                bounds_first=bounds_first, macro=fam)
 
 DERIVED = {s['id']: derive(s) for s in SHAPES}
 
